@@ -119,9 +119,9 @@ def ipb_flags():
 
 
 NOT_AVAILABLE = {
-    "map": {"removeVal", "appendAll", "removeAll"},
+    "map": {"removeVal", "appendAll", "removeAll", "appendSelf", "removeSelf"},
     "set": {"removeVal", "setval"},
-    "pool": {"copy", "assign", "prepend", "appendAll", "removeAll"},
+    "pool": {"copy", "assign", "assignSelf", "prepend", "appendAll", "removeAll", "appendSelf", "removeSelf"},
 }
 
 
@@ -263,6 +263,14 @@ def reference(hist):
         elif op == "removeAll":
             ks = {e[0] for e in st.t[o]}
             st.t[t] = [e for e in l if e[0] not in ks]
+        elif op in ("assignSelf", "swapSelf"):
+            pass                         # a = a, a.swap(a): the table is what it was
+        elif op == "appendSelf":
+            for e in list(st.t[t]):      # a.append(a): every key is already there
+                st.insert(t, len(st.t[t]), e[0], e[1])
+        elif op == "removeSelf":
+            ks = {e[0] for e in st.t[t]}
+            st.t[t] = [e for e in l if e[0] not in ks]
         elif op == "setval":
             i = st.idx(t, a[0])
             if i is not None:
@@ -287,7 +295,7 @@ MODES = [0, 1, 2, 3, 4]
 KINDS = ["map", "set", "pool"]
 
 
-ORIGINS = [0, 1, 2, 3, 4, 5, 9]     # forms of a String key argument (harness/hash.cpp StrForm); 9 = rotate on every use
+ORIGINS = [0, 1, 2, 3, 4, 5, 6, 7, 8, 10, 11, 12, 9, 9, 9]     # forms of a String key argument (harness/hash.cpp StrForm); 9 = rotate on every use
 
 
 def gen_history(rng, length, kind=None, mode=None, origins=False):
@@ -334,10 +342,17 @@ def gen_history(rng, length, kind=None, mode=None, origins=False):
             op = f"appendAll {t}" if kind == "set" else f"setval {t} {k} {v}"
         elif x < 0.96:
             op = f"removeAll {t}" if kind == "set" else f"setval {t} {k} {v}"
-        elif x < 0.98:
+        elif x < 0.975:
             op = f"new {t} {rng.choice(CAPS)}"; size[t] = 0
-        elif x < 0.99:
+        elif x < 0.98:
             op = f"newdef {t}"; size[t] = 0
+        elif x < 0.99:
+            # the object itself as the argument (removeSelf empties the table: kept rare)
+            op = rng.choice(["swapSelf", "assignSelf" if kind != "pool" else "swapSelf",
+                             "appendSelf" if kind == "set" else "swapSelf",
+                             "removeSelf" if kind == "set" and rng.random() < 0.5 else "swapSelf"]) + f" {t}"
+            if op.startswith("removeSelf"):
+                size[t] = 0
         elif x < 0.995:
             w_ = rng.choice([8, 16, 32, 64])
             op = f"hashnum {w_} {rng.randrange(2)} {rng.choice([0, 1, (1 << (w_ - 1)) - 1, 1 << (w_ - 1), (1 << w_) - 1, rng.randrange(1 << w_)])}"
@@ -359,10 +374,11 @@ def alphabet(kind):
         a.append(f"remove 0 {k}")
     a += ["insert 0 1 2 9", "insert 0 0 3 4", "removeAt 0 0", "removeAt 0 1", "removeFront 0", "removeBack 0",
           "clear 0", "swap 0", "append 1 0 7", "append 1 3 8", "remove 1 1"]
+    a += ["swapSelf 0"]
     if kind != "pool":
-        a += ["prepend 0 1 6", "prepend 0 3 3", "assign 0", "assign 1", "copy 0", "copy 1"]
+        a += ["prepend 0 1 6", "prepend 0 3 3", "assign 0", "assign 1", "copy 0", "copy 1", "assignSelf 0"]
     if kind == "set":
-        a += ["appendAll 0", "appendAll 1", "removeAll 0", "removeAll 1"]
+        a += ["appendAll 0", "appendAll 1", "removeAll 0", "removeAll 1", "appendSelf 0", "removeSelf 0"]
     if kind == "pool":
         a += ["removeVal 0 0", "removeVal 0 1", "setval 0 1 42", "append 0 3 0"]
     if kind == "map":
